@@ -172,6 +172,16 @@ def run(src, q):
         with stubs.sut():
             ns, obs, reward, done, info = env.generative_step(x, A.obj)
         r.hidden_changed = hidden.diff(before, hidden.snapshot(hobjs, skip))
+        pure_now = dict(
+            x_rows=(x_rows0, dyn.tensor_rows(x.tensor)),
+            cur_rows=(cur_rows0, dyn.tensor_rows(env.current_state.tensor)),
+            last_rows=(last_rows0, dyn.tensor_rows(env.last_obs.tensor)),
+            same_objects=(env.current_state is cur0 and env.last_obs is last0),
+            steps=(steps0, sx.znum(env.steps)),
+            shares=shares(ns.tensor, x.tensor),
+            ns_is_x=ns is x)
+        first_ns_rows = dyn.tensor_rows(ns.tensor)
+        first_obs_rows = dyn.tensor_rows(obs.tensor)
         if r.hidden_changed:
             # the generative step left something behind: look ahead on another branch (fresh
             # arbitrary Inv-state, own draw), then ask the same question again with the same draw
@@ -189,16 +199,9 @@ def run(src, q):
                 ns_b, obs_b, reward_b, done_b, info_b = env.generative_step(x, A.obj)
             r.again = dict(ns_rows=dyn.tensor_rows(ns_b.tensor), obs_rows=dyn.tensor_rows(obs_b.tensor),
                            reward=spec.real(sx.znum(reward_b)), done=sx.zbool(done_b), info=info_terms(info_b))
-        r.g = dict(ns_rows=dyn.tensor_rows(ns.tensor), obs_rows=dyn.tensor_rows(obs.tensor),
+        r.g = dict(ns_rows=first_ns_rows, obs_rows=first_obs_rows,
                    reward=spec.real(sx.znum(reward)), done=sx.zbool(done), info=info_terms(info))
-        r.pure = dict(
-            x_rows=(x_rows0, dyn.tensor_rows(x.tensor)),
-            cur_rows=(cur_rows0, dyn.tensor_rows(env.current_state.tensor)),
-            last_rows=(last_rows0, dyn.tensor_rows(env.last_obs.tensor)),
-            same_objects=(env.current_state is cur0 and env.last_obs is last0),
-            steps=(steps0, sx.znum(env.steps)),
-            shares=shares(ns.tensor, x.tensor),
-            ns_is_x=ns is x)
+        r.pure = pure_now
         r.res = dict(success=sx.zbool(info['success']), value=spec.real(sx.znum(info['value'])),
                      conn=sx.zbool(info['connection_error']), perm=sx.zbool(info['permission_error']),
                      undef=sx.zbool(info['undefined_error']))
